@@ -11,6 +11,10 @@ pub struct Regex {
 }
 
 impl Regex {
+    pub fn is_case_insensitive(&self) -> bool {
+        self.case_insensitive
+    }
+
     pub fn new(re: &str, case_insensitive: bool) -> Result<Regex, regex::Error> {
         assert!(re.starts_with('^'));
         // file names may contain newline characters, so `.` must match them as well
